@@ -276,23 +276,23 @@ theorem hasNote_fields {e : Enc} {a : Bytes} {p : Nat} {n : Spec.Note} (h : HasN
   have hN : (Spec.padTo4 (n.name ++ [0])).length = Spec.up4 (n.name.length + 1) := by simp
   refine ⟨?_, ?_, ?_, ?_, ?_⟩
   · apply fieldAt_of_slice
-    have := slice_slice h (off := 0) (len := 4) (by omega)
+    have := slice_slice_note h (off := 0) (len := 4) (by omega)
     rw [Nat.add_zero] at this
     rw [this, encodeNote_assoc, slice_prefix (l4 _)]
   · apply fieldAt_of_slice
-    rw [slice_slice h (off := 4) (len := 4) (by omega), encodeNote_assoc,
+    rw [slice_slice_note h (off := 4) (len := 4) (by omega), encodeNote_assoc,
       slice_append_right' (l4 _) _ 0 4, slice_prefix (l4 _)]
   · apply fieldAt_of_slice
-    rw [slice_slice h (off := 8) (len := 4) (by omega), encodeNote_assoc,
+    rw [slice_slice_note h (off := 8) (len := 4) (by omega), encodeNote_assoc,
       slice_append_right' (l4 _) _ 4 4, slice_append_right' (l4 _) _ 0 4, slice_prefix (l4 _)]
-  · rw [slice_slice h (off := 12) (len := n.name.length) (by omega), encodeNote_assoc,
+  · rw [slice_slice_note h (off := 12) (len := n.name.length) (by omega), encodeNote_assoc,
       slice_append_right' (l4 _) _ 8 _, slice_append_right' (l4 _) _ 4 _,
       slice_append_right' (l4 _) _ 0 _]
     unfold Spec.padTo4
     rw [List.append_assoc, List.append_assoc, slice_prefix rfl]
   · have e12 : 12 + Spec.up4 (n.name.length + 1) = 4 + (4 + (4 + (Spec.up4 (n.name.length + 1) + 0))) := by
       omega
-    rw [Nat.add_assoc, slice_slice h (off := 12 + Spec.up4 (n.name.length + 1)) (len := n.desc.length)
+    rw [Nat.add_assoc, slice_slice_note h (off := 12 + Spec.up4 (n.name.length + 1)) (len := n.desc.length)
         (by omega), encodeNote_assoc, e12, slice_append_right' (l4 _), slice_append_right' (l4 _),
       slice_append_right' (l4 _), slice_append_right' hN]
     unfold Spec.padTo4
